@@ -275,8 +275,56 @@ def rule_r5(chk, facts, P):
                'not decided by the argument text' if ok else
                'this store into the argument slot is executed only when the slot\'s current text is %sempty: an explicitly '
                'empty argument is treated as "not given" and replaced by the default' % ('' if bad[1] == 'F' else 'non-'))
-    if n < 2:
+    if n < 1:
         raise AnalysisBroken('argument slot stores of ExpandMacro not found')
+    # keyword path: the text behind "name=" reaches the slot whatever it is (also when it is empty)
+    kv = None
+    for b, i, ln, m in f.nodes():
+        if is_assign(m) and m[1] == '=' and strip(m[2])[0] == 'l' and (callee_name(nocast(m[3])) or '').startswith('QuotPos') and \
+                any(const_val(a) == ord('=') for a in nocast(m[3])[2]):
+            kv = strip(m[2])
+    if kv is None:
+        raise AnalysisBroken('ExpandMacro: keyword separator search (QuotPos(.., \'=\')) not found')
+
+    def text_guard(g, b, i, var):
+        """is element (b, i) of g executed only under a condition that reads the characters of var?"""
+        for bid, bl in g.blocks.items():
+            c = bl.get('cond')
+            if c is None or len(bl['succ']) != 2 or not _reads_text(c, var):
+                continue
+            for pol in ('T', 'F'):
+                if g.guarded(b, i, lambda l, c=c, pol=pol: l is not None and l[0] == pol and l[1] is c)[0]:
+                    return True
+        return False
+    k = 0
+    for b, i, ln, m in f.nodes():
+        # direct store of the keyword value
+        if is_assign(m) and m[1] == '=' and strip(m[2])[0] == 'm' and strip(m[2])[2].endswith('.Content') and \
+                nocast(m[3])[0] == 'call' and any(strip(a) == kv for a in nocast(m[3])[2]):
+            k += 1
+            ok = not text_guard(f, b, i, kv)
+            chk.ob('C11-R5', 'as.c:ExpandMacro:keyword-value-stored', ok, f.loc(ln),
+                   'stored whatever its text' if ok else
+                   'the keyword argument\'s value is stored only when its text is non-empty: "name=" cannot override a default')
+        # ... or through a helper that receives the value
+        if m[0] == 'call' and callee_name(m) and callee_name(m) not in ('as_strdup', 'KillPrefBlanks', 'strcmp', 'strlen'):
+            g = P.resolve(f.unit, callee_name(m))
+            if g is None:
+                continue
+            for ai, a in enumerate(m[2]):
+                if strip(a) == kv and ai < len(g.params):
+                    pv = ('p', g.params[ai]['name'])
+                    for b2, i2, l2, m2 in g.nodes():
+                        if is_assign(m2) and m2[1] == '=' and strip(m2[2])[0] == 'm' and strip(m2[2])[2].endswith('.Content') and \
+                                nocast(m2[3])[0] == 'call' and any(strip(x) == pv for x in nocast(m2[3])[2]):
+                            k += 1
+                            ok = not text_guard(g, b2, i2, pv)
+                            chk.ob('C11-R5', 'as.c:ExpandMacro:keyword-value-stored', ok, g.loc(l2),
+                                   'stored whatever its text' if ok else
+                                   '%s() stores the value only when its text is non-empty, and ExpandMacro() passes it the text '
+                                   'behind "name=": an explicitly empty keyword argument is dropped and the default is used' % g.name)
+    if not k:
+        raise AnalysisBroken('ExpandMacro: store of the keyword argument value not found')
 
 
 def rule_r6(chk, facts, P):
